@@ -163,7 +163,7 @@ pub fn run(args: &Args) {
     }
     report.run_regressions(|input| run_case_files(&cases::load_case_files(input), input["note"].as_str().unwrap_or("")).map(|_| ()));
 
-    let cases_n = args.tier.pick(1000, 80_000);
+    let cases_n = args.tier.pick(2000, 80_000);
     let res = vcore::run_prop_parallel(
         &report,
         "projects",
